@@ -238,6 +238,7 @@ func (vc *VC) finish() {
 	cv := vc.oblige("cover", Rexit, "false", vc.fn.Pos(), "cover: some return is reachable under the precondition")
 	cv.Cover = true
 	vc.frameObligations(Rexit, mem, old)
+	vc.resetObligations(Rexit, env)
 	if vc.con == nil {
 		return
 	}
